@@ -1138,6 +1138,9 @@ def judge_raw_twins(chk):
                 chk.record(cid, ("violation", "sanitising entry point answers %s, raw entry point %s" % (ra.get("status"), rb.get("status"))))
             continue
         p_, n_ = ra["pn"]
+        if any(set(x) - set("01") for x in ra["payload"].split(",")):
+            chk.record(cid, ("violation", "sanitised result is not expressed in the canonical encoding (%s)" % ra["payload"][:40]))
+            continue
         want = ",".join(expand_bits(x, p_, n_, case["k"]) for x in ra["payload"].split(","))
         if want != rb["payload"]:
             chk.record(cid, ("violation", "sanitised result differs from the raw result on a graph narrowed with restrict (k=%d)" % case["k"]))
